@@ -104,6 +104,16 @@ def build(c, spec, prev=None):
         boundary = rng.random() < (0.02 if not spec.get("big") else 0.05)
         receipt = rq.gen_receipt(rng)
         proof = rq.gen_proof(rng, boundary=boundary)
+        if c.get("same_tx_as_previous") and prev is not None and "receipt" in prev:
+            # the other inputs of a pegout come with the same receipt - and, normally, the
+            # same proof; here each of the two may or may not be the previous one
+            k = rng.random()
+            if k < 0.45:
+                receipt = prev["receipt"]
+            elif k < 0.6:
+                proof = prev["proof"]
+            elif k < 0.7:
+                receipt, proof = prev["receipt"], prev["proof"]
         out["req"] = rq.sign_auth_request(key, tx["raw"], idx, receipt, proof, segwit)
         out.update(key=key, tx=tx, idx=idx, segwit=segwit, receipt=receipt, proof=proof)
         out["spaced"] = None
